@@ -97,6 +97,11 @@ class Cursor:
             return False
         if self.unknown:
             return True
+        if kind == 'err' and out.split(' ')[1:2] and out.split(' ')[1] in ('buflimit', 'io'):
+            # refused growth / injected source failure: legitimate outcomes that the cursor machine does
+            # not describe (C09, C14 and C06 have their own oracles); nothing more is checked in this case
+            self.unknown = True
+            return True
         c = op[0]
         if c in 'NOM':
             if kind == 'none':
